@@ -77,7 +77,10 @@ func genStateRace(t *rapid.T, w *World, pre *Snapshot, n int) []Op {
 		id := oneOf(t, targets, "target")
 		r := g.ref(id)
 		op := Op{N: 1000 + i, Mode: "json", Target: &r, Agent: oneOf(t, agents, "agent")}
-		switch uni(t, 5, "shape") {
+		switch uni(t, 6, "shape") {
+		case 5:
+			// a bystander: init on an existing store must not disturb the lock others hold
+			op = Op{N: 1000 + i, Kind: "init"}
 		case 0:
 			op.Kind = "claim_id"
 		case 1:
@@ -334,4 +337,48 @@ func TestC05Faults(t *testing.T) {
 
 func TestC09Bulk(t *testing.T) {
 	runBulkPruneCrash(t, "C09", "TestC09Bulk")
+}
+
+func TestC11Faults(t *testing.T) {
+	runFaultErrTest(t, "C11", "TestC11Faults", func(rt *rapid.T, w *World, pre *Snapshot) Op {
+		return Op{Kind: "plan", Plan: genRichPlan(rt, w)}
+	})
+}
+
+func TestC16Faults(t *testing.T) {
+	runFaultErrTest(t, "C16", "TestC16Faults", genMultiEventOp)
+}
+
+// genTextRace: title / body edits racing a compaction (or a plan, which rewrites the log too).
+func genTextRace(t *rapid.T, w *World, pre *Snapshot, n int) []Op {
+	g := refGen{t, w, pre}
+	items := pre.SortedIDs()
+	var ops []Op
+	for i := 0; i < n; i++ {
+		if len(items) == 0 {
+			ops = append(ops, Op{N: 1000 + i, Kind: "new_task", Mode: "json", Title: sp(genTitle(t, w, "title"))})
+			continue
+		}
+		r := g.ref(oneOf(t, items, "target"))
+		op := Op{N: 1000 + i, Kind: "set", Mode: oneOf(t, []string{"json", "json", "bodystdin"}, "mode"), Target: &r}
+		if pct(t, 60, "title") {
+			op.Title = sp(genTitle(t, w, "title"))
+		}
+		if op.Title == nil || pct(t, 60, "body") || op.Mode == "bodystdin" {
+			op.Body = sp(genBody(t, "body") + " " + w.UniqueTitle("b"))
+		}
+		ops = append(ops, op)
+	}
+	k := uni(t, n, "rewrite.slot")
+	if pct(t, 70, "rewrite.compact") {
+		ops[k] = Op{N: 1000 + k, Kind: "compact"}
+	} else {
+		ops[k] = Op{N: 1000 + k, Kind: "plan", Plan: genPlanDoc(t, w, 1, 3)}
+	}
+	return ops
+}
+
+func TestC17Conc(t *testing.T) {
+	runSchedTest(t, schedSpec{prop: "C17", test: "TestC17Conc", genOps: genTextRace, minN: 2, maxN: 3, setup: setupProfile,
+		rule: "a generated store, one whole-log rewrite (compact or plan) and 1-2 concurrent title / body edits (JSON and --body-stdin), parked / resumed by the controller or free-running; oracle: linearizability - every acknowledged text is what show returns afterwards (the last one in the serial order), none is reverted by the rewrite; non-trivial = executions overlap and at least one park landed (or free-running)"})
 }
